@@ -85,6 +85,7 @@ prop(
 )
 
 WORKERS_ACCESS = ("internal/workers", "workers_access.go")
+POOL_ACCESS = ("internal/workers", "workers_pool_access.go")
 
 
 def c01_key(c, model):
@@ -240,7 +241,7 @@ prop(
                  "Go's select picks uniformly among ready cases (a buffered Restart is taken within 60 passes except with probability < 1e-7)"],
 )
 
-POOL_STAGE = dict(name="c02pool", pkg="c02", test="TestC02Pool", access=[WORKERS_ACCESS, RUN_ACCESS], timeout_quick=300, timeout_thorough=3000)
+POOL_STAGE = dict(name="c02pool", pkg="c02", test="TestC02Pool", access=[WORKERS_ACCESS, POOL_ACCESS, RUN_ACCESS], timeout_quick=300, timeout_thorough=3000)
 
 POOL_DRIFT = ["internal/workers/trigger_pool.go::" + f for f in
               ["TriggerPool.Start", "TriggerPool.Start.go", "TriggerPool.Trigger", "TriggerPool.halt", "TriggerPool.maxIterationsReached",
@@ -248,7 +249,7 @@ POOL_DRIFT = ["internal/workers/trigger_pool.go::" + f for f in
                "TriggerPool.waitForNewJobs", "jobCounter.none", "jobCounter.set", "jobCounter.take"]] + \
              ["internal/workers/pool_manager.go::" + f for f in
               ["PoolManager.NextIteration", "PoolManager.IterationsExhausted", "PoolManager.MaxIterationsReached", "PoolManager.WaitForCompletion"]]
-GATE_STAGE = dict(name="poolgate", pkg="c02", test="TestPoolGate", access=[WORKERS_ACCESS, RUN_ACCESS], instrument=True, drift=POOL_DRIFT,
+GATE_STAGE = dict(name="poolgate", pkg="c02", test="TestPoolGate", access=[WORKERS_ACCESS, POOL_ACCESS, RUN_ACCESS], instrument=True, drift=POOL_DRIFT,
                   timeout_quick=300, timeout_thorough=3000)
 GATE_RULE = ("; gate enumeration on sources instrumented from the working tree: for every synchronisation point of the trigger pool found by the instrumenter (discovered at run time) the first goroutine arriving there is held "
              "while an adversary step completes (cancel + the stopper; ticks up to the limit; a tick of `workers` blocking iterations), then released: pending counter <= 0 at completion, started + dropped = sum of accepted ticks, "
@@ -268,7 +269,7 @@ prop(
 
 prop(
     id="C03",
-    stages=[POOL_STAGE, GATE_STAGE, dict(name="c03runs", pkg="c02", test="TestC03Runs", access=[WORKERS_ACCESS, RUN_ACCESS], timeout_quick=300, timeout_thorough=3000)],
+    stages=[POOL_STAGE, GATE_STAGE, dict(name="c03runs", pkg="c02", test="TestC03Runs", access=[WORKERS_ACCESS, POOL_ACCESS, RUN_ACCESS], timeout_quick=300, timeout_thorough=3000)],
     rule="ids (T.Iteration) collected by the scenario in (a) the pool histories of C02 incl. limits 1-60 with 1-8 workers competing for the last ids, (b) whole runs in every trigger mode (constant, staged, ramp, gaussian, users, file with the limit "
          "falling inside one of three stages) with limits 1-400 and concurrency 1-100: sorted ids must be exactly k..1, k <= limit, k = limit when the limit ended the run; oracle = extracted predicate c03_ok; "
          "non-trivial = limit-ended cases; distinct = distinct observations" + GATE_RULE,
@@ -277,7 +278,7 @@ prop(
 
 prop(
     id="C04",
-    stages=[POOL_STAGE, GATE_STAGE, dict(name="c04runs", pkg="c02", test="TestC04Runs", access=[WORKERS_ACCESS, RUN_ACCESS], timeout_quick=300, timeout_thorough=3000)],
+    stages=[POOL_STAGE, GATE_STAGE, dict(name="c04runs", pkg="c02", test="TestC04Runs", access=[WORKERS_ACCESS, POOL_ACCESS, RUN_ACCESS], timeout_quick=300, timeout_thorough=3000)],
     rule="scenario-side atomic in-flight counter with high-water mark and a live set of *T pointers (duplicate insert = shared handle) in (a) the pool histories of C02, (b) whole runs of constant, staged, ramp, gaussian and users triggers "
          "with concurrency 1-16 whose first iterations only return once `concurrency` of them overlap (rendezvous, 3s timeout = not all workers usable); oracle = extracted predicate c04_ok; non-trivial = rendezvous runs; distinct = distinct observations" + GATE_RULE,
     assumptions=["in the model worker i owns handle i by construction; handle identity in the code is observed, not modelled", "file mode is outside the statement (consecutive stages' pools may overlap)"],
